@@ -8,10 +8,14 @@
      L=ID^PARENT^<tree>~...     commits, newest first; PARENT = - for a root commit
      O=op,op,...                operations:
          diff push cob:NAME con:NAME coi:ID addv add commit pop
+         commitp            git commit -m <msg> -- <xvc dir> '*.gitignore' '*.xvcignore'  (git_commit_only)
+         aco:TB             git_auto_commit after the repair of P24 (git_auto_commit_only)
+         crp:n:NAME | crp:i:ID          git_checkout_ref after the repair of P24 (git_checkout_ref_plain)
          ac:FX:TB           git_auto_commit (FX 0/1, TB = branch or -)
          as                 git_auto_stage
          cr:FX:n:NAME | cr:FX:i:ID      git_checkout_ref
-         disp!UG!AC!AS!SK!TB!FR!FX!KIND!OK!DELTA!DELTA2   dispatch; FR = - | n:NAME | i:ID; KIND = init|other;
+         disp!UG!AC!AS!SK!TB!FR!FX!F24!KIND!OK!DELTA!DELTA2   dispatch; FR = - | n:NAME | i:ID; KIND = init|other;
+                            FX = fixed_P20, F24 = fixed_P24 (0/1); the result carries known=<Known_class>;
                             DELTA = PATH>BLOB+PATH>-+...  (or empty)
          wr!DELTA           writes / deletes work-tree files (apply_delta)
    Output line: R=<result>;<result>...  followed by the canonical final state (same syntax, sorted),
@@ -96,7 +100,7 @@ let string_of_refarg = function RName n -> "n:" ^ string_of_name n | RId i -> "i
 let string_of_cmd = function
   | GDiffCached -> "diff" | GStashPushStaged -> "push" | GCheckoutB b -> "cob:" ^ string_of_name b
   | GCheckout r -> "co:" ^ string_of_refarg r | GAddVerbose -> "addv" | GAdd -> "add" | GCommit -> "commit"
-  | GStashPopIndex -> "pop"
+  | GStashPopIndex -> "pop" | GCommitOnly -> "commitp"
 let string_of_trace t = concat "," (lmap string_of_cmd t)
 
 let paths_out (l : path list) =
@@ -111,17 +115,17 @@ exception Dirty_state of string list
 let run_op (g : git) (op : string) : string * git =
   if sl op > 5 && Stdlib.String.sub op 0 5 = "disp!" then begin
     match Stdlib.String.split_on_char '!' op with
-    | [_; ug; ac; ast; sk; tb; fr; fx; kind; ok; d1; d2] ->
+    | [_; ug; ac; ast; sk; tb; fr; fx; f24; kind; ok; d1; d2] ->
       let s = { use_git = b01 ug; auto_commit = b01 ac; auto_stage = b01 ast; skip_git = b01 sk;
                 to_branch = opt_name tb; from_ref = (if fr = "-" then None else Some (refarg_of_string fr));
-                fixed_P20 = b01 fx } in
+                fixed_P20 = b01 fx; fixed_P24 = b01 f24 } in
       let c = { c_kind = (if kind = "init" then KInit else KOther); c_ok = b01 ok;
                 c_delta = delta_of_string d1; c_delta2 = delta_of_string d2 } in
       let ((st, g'), tr) = dispatch s c g in
       let sts = match st with
         | SOk -> "ok" | SCmdFailed -> "cmdfailed" | SFromRefFailed -> "fromref"
         | SAutoFailed k -> "auto" ^ string_of_int (int_of_nat k) in
-      let known = coq_Known_staged_and_unstaged_same_path c g in
+      let known = coq_Known_class s c g in
       (sts ^ "/" ^ string_of_trace tr ^ "/known=" ^ rc (not known), g')
     | _ -> failwith ("dispatch " ^ op)
   end else
@@ -136,6 +140,11 @@ let run_op (g : git) (op : string) : string * git =
   | ["coi"; i] -> let (ok, g') = checkout_ref (RId (n_of_string i)) g in (rc ok, g')
   | ["addv"] | ["add"] -> let ((ok, out), g') = git_add g in (rc ok ^ "/" ^ paths_out out, g')
   | ["commit"] -> let (ok, g') = git_commit g in (rc ok, g')
+  | ["commitp"] -> let (ok, g') = git_commit_only g in (rc ok, g')
+  | ["aco"; tb] -> let ((ok, g'), tr) = git_auto_commit_only (opt_name tb) g in
+    (rc ok ^ "/" ^ string_of_trace tr, g')
+  | ["crp"; k; v] -> let ((ok, g'), tr) = git_checkout_ref_plain (refarg_of_string (k ^ ":" ^ v)) g in
+    (rc ok ^ "/" ^ string_of_trace tr, g')
   | ["pop"] -> (match stash_pop_index g with
       | Done g' -> ("0", g') | Failed g' -> ("1", g') | Dirty -> raise (Dirty_state ["1"]))
   | ["ac"; fx; tb] -> let ((ok, g'), tr) = git_auto_commit (b01 fx) (opt_name tb) g in
